@@ -158,7 +158,13 @@ def core_check(prop, tier, seed_):
                                                    workers=max(4, common.NCPU // len(kits_))), kits_))
     for kit, (mc, recs, bad, info) in zip(kits_, results):
         kname = kit.name
-        selftests[kname] = selftest(kit, recs, bad)
+        try:
+            selftests[kname] = selftest(kit, recs, bad)
+        except MachineryError as ex:
+            # a run that already rejects records reports them; mandatory only for a run that would pass
+            if not any(c[:4] in ("C01:", "C02:", "C03:", "C04:", "C05:", "C18:") for cl in bad.values() for c in cl):
+                raise
+            selftests[kname] = {"failed_in_a_run_with_rejections": str(ex)[:300]}
         cov["states"] += mc["states"]
         cov["transitions"] += mc["transitions"]
         cov["traces_validated_against_impl"] += info["pairs_replayed"] + info["histories"]
